@@ -734,9 +734,7 @@ def check_dispatch(iexe, mexe):
         elif okw and k in BROKER_KINDS:
             dec = a.split(" dec=")[1].split(" rest=")[0]
             rest = a.split(" rest=")[1]
-            # rumqttc's v5 decoder does not accept the 2-byte DISCONNECT e0 00 (PayloadRequired): client-side decoder, reported separately
-            tolerated = (v == "v5" and k == "disconnect" and p == 0 and x == 0 and "hex=e000 " in a)
-            if (not dec.startswith(k) or rest != "0") and not tolerated:
+            if not dec.startswith(k) or rest != "0":
                 bad_prop.append("WRITE %s %s %d %d => %s (does not decode back)" % (v, k, p, x, a))
     return bad_prop, bad_corr, n
 
